@@ -1,4 +1,5 @@
 import PPProofs.Props.C16
+import PPProofs.Props.C16Left
 #print axioms PP.Infix.infix_roundtrip_partial
 #print axioms PP.Infix.goal_all
 #print axioms PP.Infix.lift_all
@@ -7,3 +8,15 @@ import PPProofs.Props.C16
 #print axioms PP.Infix.goal_paren
 #print axioms PP.Infix.goal_pre
 #print axioms PP.Infix.goal_binR
+#print axioms PP.Infix.infix_roundtrip_left_partial
+#print axioms PP.Infix.infix_roundtrip_left_covers_right
+#print axioms PP.Infix.Left.goal_all
+#print axioms PP.Infix.Left.lift_all
+#print axioms PP.Infix.Left.goal_binL
+#print axioms PP.Infix.Left.chain_parse
+#print axioms PP.Infix.Left.chain_nest
+#print axioms PP.Infix.Left.goal_lift
+#print axioms PP.Infix.Left.goal_atom
+#print axioms PP.Infix.Left.goal_paren
+#print axioms PP.Infix.Left.goal_pre
+#print axioms PP.Infix.Left.goal_binR
